@@ -144,7 +144,14 @@ class Check:
         self.stubs = set()
         self.assumptions = []
         self.extra = {}
+        self.cross = {}
         self.seed = seed()
+
+    def add_cross(self, out):
+        c = out.get("cross") if isinstance(out, dict) else None
+        if c:
+            for k, v in c.items():
+                self.cross[k] = self.cross.get(k, 0) + v
 
     def log(self, *a):
         print(*a, flush=True)
@@ -193,6 +200,8 @@ class Check:
             "native_replay_mismatches": self.replays_bad,
             "explanation": rule or "",
         }
+        if getattr(self, "cross", None):
+            cov["second_solver_cvc5"] = self.cross
         cov.update(self.extra)
         ev = {
             "property_id": self.prop,
